@@ -165,6 +165,17 @@ Proof.
       intros Hl. eapply via_tmp2_ok; eauto. eapply vsrc_src_in; eauto. apply Dt.
 Qed.
 
+Lemma ok_ViewAssign r t vr vt : op_ok (OViewAssign r t vr vt).
+Proof.
+  intros A W T (Hne & (ar & Dr & Dvr) & (at_ & Dt & Dvt) & Hx). cbn [step].
+  eapply bind_get_arr; [apply Dr|]. eapply bind_get_arr; [apply Dt|].
+  eapply triple_conseq; [apply (assign_offs_spec cfg rank_pos [] A r ar (vs_offs vr) (vsrc_cells at_ vt) (proj2 Dr))| | |]; auto.
+  - eapply vsrc_src_in_ex; eauto. apply Dt.
+  - destruct Dvr as [Fo _]. eapply Forall_impl; [|exact Fo]. intros o Ho. unfold nnel. cbn in Ho. lia.
+  - intros _ s [I HA]. eapply (Good_intro cfg); eauto.
+  - intros s (I & HA & _). eapply GoodT_left; eauto.
+Qed.
+
 Lemma ok_AssignRange r w : op_ok (OAssignRange r w).
 Proof.
   intros A W T ((ar & Dr) & Dw). cbn [step]. eapply bind_get_arr; [apply Dr|].
